@@ -1,9 +1,14 @@
 package main
 
 import (
+	"bufio"
+	"encoding/json"
 	"fmt"
+	"os"
+	"path/filepath"
 	"sort"
 	"strings"
+	"sync"
 )
 
 // thoroughExtras runs the additional thorough-tier controls shared by all
@@ -28,6 +33,7 @@ func thoroughExtras(id string, base *Base, prog *Prog, outs *[]*Out) []string {
 		notes = append(notes, fmt.Sprintf("GOARCH=386 load: %d files, same set: %v", len(b), strings.Join(a, "\n") == strings.Join(b, "\n")))
 	}
 	*outs = append(*outs, o)
+	notes = append(notes, sensitivitySweep(id, base, prog)...)
 	for _, f := range thoroughHooks[id] {
 		notes = append(notes, f(base, prog, outs)...)
 	}
@@ -35,3 +41,122 @@ func thoroughExtras(id string, base *Base, prog *Prog, outs *[]*Out) []string {
 }
 
 var thoroughHooks = map[string][]func(*Base, *Prog, *[]*Out) []string{}
+
+// anchorFiles reads the files a property is anchored in from properties.jsonl.
+func anchorFiles(id string) []string {
+	f, err := os.Open(filepath.Join(verifDir, "properties.jsonl"))
+	if err != nil {
+		return nil
+	}
+	defer f.Close()
+	sc := bufio.NewScanner(f)
+	sc.Buffer(make([]byte, 1<<20), 1<<20)
+	for sc.Scan() {
+		var rec struct {
+			ID      string `json:"id"`
+			Anchors struct {
+				Files []string `json:"files"`
+			} `json:"anchors"`
+		}
+		if json.Unmarshal(sc.Bytes(), &rec) == nil && rec.ID == id {
+			return rec.Anchors.Files
+		}
+	}
+	return nil
+}
+
+// sensitivitySweep (thorough tier, evidence only): mechanical single-token
+// edits of the property's anchor files, each built in memory and run through
+// the property's rules. Reports how many the rules notice. It measures the
+// rules, not the tree, and never changes the exit status; unnoticed edits
+// include equivalent ones and ones outside the property.
+func sensitivitySweep(id string, base *Base, prog *Prog) []string {
+	files := anchorFiles(id)
+	if len(files) == 0 {
+		return []string{"sensitivity sweep: no anchor files"}
+	}
+	var rules []*Rule
+	for _, r := range rulesFor(id) {
+		if r.Name != "bounds-residual" {
+			rules = append(rules, r)
+		}
+	}
+	baseFail := map[string]bool{}
+	for _, r := range rules {
+		for _, in := range runRule(prog, r).Insts {
+			if !in.OK {
+				baseFail[fullKey(in)] = true
+			}
+		}
+	}
+	var edits []sweepEdit
+	for _, e := range genSweepEdits(prog, "") {
+		for _, f := range files {
+			if e.File == f {
+				edits = append(edits, e)
+			}
+		}
+	}
+	type res struct{ outcome, by string }
+	results := make([]res, len(edits))
+	sem := make(chan struct{}, 12)
+	var wg sync.WaitGroup
+	for i, e := range edits {
+		wg.Add(1)
+		go func(i int, e sweepEdit) {
+			defer wg.Done()
+			sem <- struct{}{}
+			defer func() { <-sem }()
+			defer func() {
+				if x := recover(); x != nil {
+					results[i] = res{"invalid", ""}
+				}
+			}()
+			p, err := base.build([]Subst{e.Sub})
+			if err != nil {
+				results[i] = res{"invalid", ""}
+				return
+			}
+			for _, r := range rules {
+				for _, in := range runRule(p, r).Insts {
+					if !in.OK && !baseFail[fullKey(in)] {
+						results[i] = res{"noticed", r.Name}
+						return
+					}
+				}
+			}
+			results[i] = res{"unnoticed", ""}
+		}(i, e)
+	}
+	wg.Wait()
+	n, un, inv := 0, 0, 0
+	byRule := map[string]int{}
+	byFnUn := map[string]int{}
+	for i, r := range results {
+		switch r.outcome {
+		case "noticed":
+			n++
+			byRule[r.by]++
+		case "unnoticed":
+			un++
+			byFnUn[edits[i].Fn]++
+		default:
+			inv++
+		}
+	}
+	var rl []string
+	for k, v := range byRule {
+		rl = append(rl, fmt.Sprintf("%s:%d", k, v))
+	}
+	sort.Strings(rl)
+	var fl []string
+	for k, v := range byFnUn {
+		fl = append(fl, fmt.Sprintf("%s:%d", k, v))
+	}
+	sort.Strings(fl)
+	return []string{
+		fmt.Sprintf("sensitivity sweep over anchor files %v: %d mechanical single-token edits (operator swaps, deleted early exits / calls / stores, constants +1, bool flips) built in memory; %d noticed by this property's rules, %d unnoticed (includes equivalent edits and edits outside the property), %d did not compile", files, len(edits), n, un, inv),
+		"noticed by rule: " + strings.Join(rl, " "),
+		"unnoticed edits per function: " + strings.Join(fl, " "),
+	}
+}
